@@ -1,6 +1,10 @@
 package regexp2
 
-import "strconv"
+import (
+	"strconv"
+
+	"github.com/dlclark/regexp2/v2/syntax"
+)
 
 // ---------------------------------------------------------------- C12: results independent of call history
 
@@ -178,6 +182,15 @@ func VerifCheck_history() {
 		r.Runtextpos = verifInt("hv_textpos", -5, 50)
 		r.Runtextstart = verifInt("hv_textstart", -5, 50)
 		r.codepos = verifInt("hv_codepos", 0, len(r.code.Codes)-1)
+		// the decoded operator and its direction / case flags are scratch state of the last executed opcode
+		// (an aborted scan stops on any opcode), the stack pointers are wherever the abort left them
+		r.rightToLeft = verifBool("hv_rtl")
+		r.caseInsensitive = verifBool("hv_ci")
+		r.operator = syntax.InstOp(verifInt("hv_op", 0, 40))
+		r.Runtrackpos = verifInt("hv_trackpos", 0, len(r.runtrack))
+		r.Runstackpos = verifInt("hv_stackpos", 0, len(r.runstack))
+		r.runcrawlpos = verifInt("hv_crawlpos", 0, len(r.runcrawl))
+		r.Runtextend = verifInt("hv_textend", -5, 50)
 		if r.runmatch != nil {
 			for g := range r.runmatch.matches {
 				for k := range r.runmatch.matches[g] {
